@@ -173,7 +173,10 @@ def finish(prop, tier, seed, results, known, wall, verbose):
         solver_secs += r['solver_secs']
         if not mine and not c.trusted and prop not in S.SAFETY_ONLY:
             undecided.append('%s: zero obligations generated for %s (vacuous)' % (r['key'], prop))
+        pins = bool(getattr(c, 'pins_algorithm', False))
         for o in mine:
+            if pins and o['kind'] in ('ensures', 'assert', 'inv_init', 'inv_step'):
+                o = dict(o, path_clause=True)
             seen_names.add(o['name'])
             seen_vc.setdefault(o['name'], set()).add(o.get('vc', 0))
             n_obl += 1
@@ -286,12 +289,11 @@ def finish(prop, tier, seed, results, known, wall, verbose):
                 undecided.append('bounded stand-in %s could not be run: %s' % (nm_, (out_ or '')[:200]))
     if standin_viol:
         code = 1
-        ev['violations'] = len(viol) + len(standin_viol)
         for nm_, rp_, out_ in standin_viol:
             print('VIOLATION property=%s replay=%s' % (prop, rp_))
             print('  bounded stand-in failed natively: %s: %s' % (nm_, (out_ or '').strip().splitlines()[-1][:300] if out_ else ''))
+    real_viol = []
     if viol:
-        code = 1
         from engine import replay
         seen = set()
         for o in viol:
@@ -299,9 +301,20 @@ def finish(prop, tier, seed, results, known, wall, verbose):
                 continue
             seen.add(o['name'])
             path, reproduced = replay.write_replay(prop, o)
+            if o.get('path_clause') and not reproduced:
+                # a clause that pins the algorithm (not the result) no longer holds and no failing input was found: the code
+                # computes its result differently now and the proof does not apply to it -- undecided, not a violation
+                undecided.append('%s: the contract pins the algorithm and this clause no longer holds; no failing input found natively '
+                                 '(a different algorithm needs a new proof); replay %s' % (o['name'], path))
+                continue
+            real_viol.append((o, path, reproduced))
+    ev['violations'] = len(real_viol) + len(standin_viol)
+    if real_viol:
+        code = 1
+        for o, path, reproduced in real_viol:
             print('VIOLATION property=%s replay=%s%s' % (prop, path, '' if reproduced else ' no-failing-input-found'))
             print('  obligation %s failed; model %s' % (o['name'], json.dumps(o['model'])))
-    elif undecided and not standin_viol:
+    if not real_viol and undecided and not standin_viol:
         code = 2
         for u in undecided:
             print('UNDECIDED: ' + u)
@@ -327,7 +340,7 @@ def finish(prop, tier, seed, results, known, wall, verbose):
         for f in funcs:
             print('  %-70s paths=%d obligations=%d %.1fs' % (f['contract'], f['paths'], f['obligations'], f['secs']))
     print('%s: %d obligations, %d discharged, %d violations, %d undecided, %.1fs' % (
-        prop, n_obl, n_dis, len(viol) + len(standin_viol), len(undecided), wall))
+        prop, n_obl, n_dis, len(real_viol) + len(standin_viol), len(undecided), wall))
     return code
 
 
